@@ -880,7 +880,7 @@ zap_links(vbi_page *pg, int row)
 	vbi_link ld;
 	vbi_char *acp;
 	vbi_bool link[43];
-	int i, j, n, b;
+	int i, j, n, b, len;
 
 	acp = &pg->text[row * EXT_COLUMNS];
 
@@ -896,7 +896,11 @@ zap_links(vbi_page *pg, int row)
 	buffer[j + 1] = ' ';
 	buffer[j + 2] = 0;
 
-	for (i = 0; i < COLUMNS; i += n) { 
+	/* The row is shorter than COLUMNS characters when it contains
+	   double width characters. */
+	len = j;
+
+	for (i = 0; i < len; i += n) { 
 		n = keyword(&ld, buffer, i + 1,
 			pg->pgno, pg->subno, &b);
 
